@@ -7,6 +7,7 @@ import Proofs.DnssecChain
 import Proofs.DnssecCanon
 import Proofs.DnssecOrder
 import Proofs.DnssecNsec3
+import Proofs.DnssecSignSet
 /-!
 # C15 — key-free DNSSEC computations equal an independent RFC 4034/5155/6840/8976 reference
 
@@ -312,6 +313,27 @@ theorem nsec_chain (c : NsecConsts) (origin : Name) (nodes : List ZNode) (ws : B
     nsecsOf (signZoneNsec c origin nodes ws) = chain c origin (secure c origin (sortNodes nodes)) origin :=
   signZone_chain c origin nodes ws hd ht ho
 
+/-- The whole observable behaviour of `_sign_zone_nsec`, not only its NSEC records: the sequence of calls to the
+signer and of NSEC additions is exactly `eventsSpec` over the secure names — for each secure name, in canonical
+order, its RRsets are handed to the signer (`signSpec`), then the NSEC of the previous secure name is added and
+signed; finally the last name's NSEC points back to the origin.  Same hypotheses as `nsec_chain`. -/
+theorem sign_zone_events_exact (c : NsecConsts) (origin : Name) (nodes : List ZNode) (ws : Bool)
+    (hd : DistinctNames nodes) (ht : ∀ z ∈ nodes, z.types ≠ []) (ho : origin ≠ []) :
+    signZoneNsec c origin nodes ws = eventsSpec c origin ws none (secure c origin (sortNodes nodes)) :=
+  signZone_events c origin nodes ws hd ht ho
+
+/-- "skipping names beneath delegations", for signatures (RFC 4035 §2.2): an RRset (owner, type) is handed to the
+signer iff its owner is a secure name of the zone and the type is NSEC, or a type the node has other than RRSIG —
+at a delegation point only DS (not the NS RRset, not glue at the cut).  In particular nothing beneath a
+delegation is ever signed. -/
+theorem signed_rrsets_is_rfc4035 (c : NsecConsts) (origin : Name) (nodes : List ZNode)
+    (hd : DistinctNames nodes) (ht : ∀ z ∈ nodes, z.types ≠ []) (ho : origin ≠ []) (n : Name) (ty : Nat) :
+    Evt.sign n ty ∈ signZoneNsec c origin nodes true ↔
+      ∃ z ∈ secure c origin (sortNodes nodes), n = z.name ∧
+        (ty = c.tNSEC ∨ (ty ∈ z.types ∧ ty ≠ c.tRRSIG ∧ (isCut c origin z = true → ty = c.tDS))) := by
+  rw [signZone_events c origin nodes true hd ht ho, mem_eventsSpec]
+  simp
+
 /-- what `secure` ranges over: a permutation of the nodes, strictly increasing in the RFC 4034 §6.1 order -/
 theorem sorted_nodes_canonical (nodes : List ZNode) (hd : DistinctNames nodes) :
     (sortNodes nodes).Perm nodes ∧
@@ -365,6 +387,12 @@ example :
     ∧ nsecTypes exConsts [[101, 120], []] ⟨[[115, 117, 98], [101, 120], []], [2, 43, 1]⟩ = [2, 43, 1]
     ∧ nsecTypes { exConsts with cutTypes := true } [[101, 120], []] ⟨[[115, 117, 98], [101, 120], []], [2, 43, 1]⟩ = [2, 43] := by
   decide
+
+/-- non-vacuity on the example zone: apex SOA and NS, `a` A, at the cut `sub` only DS (neither its NS nor its
+glue A), nothing at `ns.sub`, `zz` A; an NSEC for each of the four secure names -/
+example : (signZoneNsec exConsts [[101, 120], []] exZone true).filterMap (fun e => match e with
+      | .sign n ty => some (n.length, ty) | .nsec _ _ _ => none) =
+    [(2, 6), (2, 2), (3, 1), (2, 47), (3, 43), (3, 47), (3, 1), (3, 47), (3, 47)] := by decide
 
 /-- The case repaired in commit 67da86e (DESIGN D13): a relativized zone whose only name is the apex `@` gets
 one NSEC `@ → origin`. -/
